@@ -36,8 +36,10 @@ STORE_PER_MECH = 2         # violations kept per mechanism and worker part (inst
 KEEP_PER_MECH = 6          # ... and per run (the smallest inputs)
 
 
-def budget_for(text):
-    return int(2e7 + 2e4 * len(text.encode('utf-8', 'surrogatepass')))
+def budget_for(text, files=None):
+    """B(n) for the edited text plus the files of a generated project (they are input too)"""
+    n = len(text.encode('utf-8', 'surrogatepass')) + sum(len(t.encode('utf-8', 'surrogatepass')) for t in (files or {}).values())
+    return int(2e7 + 2e4 * n)
 
 
 class BudgetExceeded(BaseException):
@@ -356,19 +358,30 @@ class Mon(object):
                     v = fn(project, text, tuple(pos), filename)
             finally:
                 n = st.stop()
-        except BudgetExceeded:
-            return ('budget', None, n)
+        except BudgetExceeded as e:
+            return ('budget', self.first_callee(e.__traceback__), n)
         except KeyboardInterrupt:
             raise
         except BaseException as e:
             return ('exc', e, n)
         return ('ok', v, n)
 
+    def first_callee(self, tb):
+        """the first supp function outside assistant.py / linter.py on the stack of a call that ran out of budget:
+        which machinery the entry point handed the work to (stable, unlike the innermost frame)"""
+        while tb is not None:
+            code = tb.tb_frame.f_code
+            fn = code.co_filename
+            if fn.startswith(self.suppdir) and os.path.basename(fn) not in ('assistant.py', 'linter.py'):
+                return getattr(code, 'co_qualname', code.co_name)
+            tb = tb.tb_next
+        return 'entry-function'
+
     def invoke(self, entry, ctx, text, pos):
         """call with the step budget; a call over budget is repeated once with 8*B on a fresh project"""
         p = self.p
-        B = budget_for(text)
-        tkey = (entry, hashlib.sha1(text.encode('utf-8', 'surrogatepass')).digest())
+        B = budget_for(text, ctx.files)
+        tkey = hashlib.sha1(text.encode('utf-8', 'surrogatepass')).digest()
         if tkey in self.dead_texts:
             # one non-terminating position was reported for this text; each further one would cost 9*B line events
             p.count('calls_skipped_after_non_termination_on_same_text')
@@ -380,9 +393,9 @@ class Mon(object):
             kind, val, n = self._call(entry, ctx.project(fresh=True), text, pos, ctx.filename, 8 * B)
             if kind == 'budget':
                 case = dict(ctx.describe(), entry=entry, text=text, pos=list(pos) if pos else None)
-                self.violate('%s:no-termination-within-budget' % entry,
-                             '%s did not return within 8*B = %d line events of supp code (%s, %d bytes, pos %s)' % (
-                                 entry, 8 * B, ctx.workload, len(text), pos), case)
+                self.violate('%s:no-termination-within-budget:in=%s' % (entry, val),
+                             '%s did not return within 8*B = %d line events of supp code, busy below %s (%s, %d bytes, pos %s)' % (
+                                 entry, 8 * B, val, ctx.workload, len(text), pos), case)
                 self.dead_texts.add(tkey)
                 return ('budget', None, n)
         p.hist('steps_log10:' + entry, int(math.log10(n)) if n > 0 else 0)
@@ -413,7 +426,7 @@ class Mon(object):
         msg = str(e)[:200]
         del tb
         # does it depend on what the long-lived project had cached?
-        kind2, val2, _ = self._call(entry, ctx.project(fresh=True), text, pos, ctx.filename, 8 * budget_for(text))
+        kind2, val2, _ = self._call(entry, ctx.project(fresh=True), text, pos, ctx.filename, 8 * budget_for(text, ctx.files))
         fresh_same = kind2 == 'exc' and type(val2).__name__ == et
         p.hist('unexpected_exception_types', '%s:%s' % (entry, et))
         case = dict(ctx.describe(), entry=entry, text=text, pos=list(pos) if pos else None, tag=tag,
@@ -426,6 +439,10 @@ class Mon(object):
 
     def recursion_outside(self, text, pos, L, ctx):
         """RecursionError: outside the domain when the (marked) text nests deeper than DEPTH_LIMIT"""
+        for t in (ctx.files or {}).values():        # the other files of a generated project count too
+            d = ci.ast_depth(t)
+            if d is not None and d >= DEPTH_LIMIT:
+                return True
         for t in ([ci.marked_text(text, pos, L)] if pos else []) + [text]:
             d = ci.ast_depth(t, ctx.filename)
             if d is not None:
@@ -703,7 +720,7 @@ def _run_hostile(m, part, h, stride=1, family='hostile'):
             L = ci.Lines(h['text'])
             for entry, pos in (('lint', None), ('assist', (1, 1)), ('location', (1, 1))):
                 if pos is None or L.inside(pos):
-                    kind, val, _ = m._call(entry, ctx.project(), h['text'], pos, ctx.filename, budget_for(h['text']))
+                    kind, val, _ = m._call(entry, ctx.project(), h['text'], pos, ctx.filename, budget_for(h['text'], h['files']))
                     part.hist('outside_domain_outcomes(observation only)', '%s on %s -> %s' % (
                         entry, h['name'].rsplit(':', 1)[0], type(val).__name__ if kind == 'exc' else kind))
             return
@@ -904,7 +921,7 @@ def main(run):
     nh = 48
     hjobs = [['work_hostile', {'indexes': idx[k::nh], 'outside': k == 0}] for k in range(nh) if idx[k::nh]]
     fjobs = []
-    for fam, nchunks in (('targets', 32), ('del', 24), ('chars', 24), ('flat', 10 ** 6)):
+    for fam, nchunks in (('targets', 32), ('del', 24), ('chars', 24), ('growth', 40), ('flat', 10 ** 6)):
         cases = ci.family(fam, run.tier)
 
         def fcost(i, cases=cases):
@@ -927,7 +944,14 @@ def main(run):
     ncls = run.pick(16, 128)
     kjobs = [['work_class', {'seed': seed, 'start': s, 'count': 4, 'npos': run.pick(8, 20)}] for s in range(0, ncls, 4)]
     # long jobs first
-    nflat = sum(1 for j in fjobs if j[1]['family'] == 'flat')
+    # the cases that are expected to need the whole 9*B line events go first, one per job
+    probes = [i for i, c in enumerate(ci.family('growth', run.tier)) if int(c['name'].rsplit(':', 1)[1]) >= 16]
+    pjobs = [['work_hostile', {'family': 'growth', 'tier': run.tier, 'indexes': [i], 'outside': False}] for i in probes]
+    for j in fjobs:
+        if j[1]['family'] == 'growth':
+            j[1]['indexes'] = [i for i in j[1]['indexes'] if i not in probes]
+    fjobs = pjobs + [j for j in fjobs if j[1]['indexes']]
+    nflat = len(pjobs) + sum(1 for j in fjobs if j[1]['family'] == 'flat')
     alljobs = (fjobs[:nflat // 3] + hjobs[:8] + jobs[:len(jobs) // 2] + gjobs + fjobs[nflat // 3:] + hjobs[8:] +
                jobs[len(jobs) // 2:] + kjobs + cjobs)
     maxs = collect(run, alljobs, timeout=run.pick(1200, 3600))
